@@ -195,16 +195,31 @@ def property_checks(inp):
     A(("single layer theta0 = 0.314 r0/h for an integer altitude", _rel(ac.isoplanaticAngle(numpy.array([cn2]), numpy.array([int(h) + 6300]), lam), 0.314 * r0l / (int(h) + 6300) * 180 * 3600 / numpy.pi), 4e-3))
     # stacked profiles: axis argument == looping
     P = numpy.array(inp["stack"]); H = numpy.array(inp["stack_aux"]); axis = inp["axis"]
-    for name, f in (("coherenceTime", ac.coherenceTime), ("isoplanaticAngle", ac.isoplanaticAngle), ("rytov_variance", ac.rytov_variance)):
-        try:
-            got = numpy.asarray(f(P, H, lam, axis=axis))
-            Pm = numpy.moveaxis(P, axis, -1); Hm = numpy.moveaxis(numpy.broadcast_to(H, P.shape), axis, -1)
-            want = numpy.empty(Pm.shape[:-1])
-            for idx in numpy.ndindex(*Pm.shape[:-1]):
-                want[idx] = f(Pm[idx], Hm[idx], lam)
-            A(("%s(axis=%d) == loop over profiles" % (name, axis), _rel(got, want), 1e-9))
-        except Exception as ex:
-            A(("%s(axis=%d) raised %s" % (name, axis, type(ex).__name__), float("inf"), 0))
+    # the per-layer quantity (heights / wind speeds) in the stack's own shape, or in any shape that broadcasts against it
+    # (shared between the leading profiles; kept as length-1 axes), with the axis counted from the front or from the back
+    variants = [("full shape", P, H, axis)]
+    if P.ndim >= 2:
+        variants.append(("shared over the first axis", P, H[0], axis if axis < 0 else None))
+        variants.append(("shared over the first axis, positive axis", P, H[0], (axis % P.ndim) if (axis % P.ndim) >= 1 else None))
+        keep = numpy.take(H, [0], axis=(axis + 1) % P.ndim)
+        variants.append(("length-1 axis kept", P, keep, axis % P.ndim))
+    if P.ndim == 2:
+        Q3 = numpy.stack([P, 1.3 * P, 0.7 * P])          # rank 3: nights x (the stack)
+        variants.append(("rank-3 stack, rank-2 per-layer quantity, positive axis", Q3, H, (axis % 2) + 1))
+        variants.append(("rank-3 stack, rank-2 per-layer quantity, negative axis", Q3, H, (axis % 2) - 2))
+    for vname, Pv, Hv, ax in variants:
+        if ax is None:
+            continue
+        for name, f in (("coherenceTime", ac.coherenceTime), ("isoplanaticAngle", ac.isoplanaticAngle), ("rytov_variance", ac.rytov_variance)):
+            try:
+                got = numpy.asarray(f(Pv, Hv, lam, axis=ax))
+                Pm = numpy.moveaxis(Pv, ax, -1); Hm = numpy.moveaxis(numpy.broadcast_to(Hv, Pv.shape), ax, -1)
+                want = numpy.empty(Pm.shape[:-1])
+                for idx in numpy.ndindex(*Pm.shape[:-1]):
+                    want[idx] = f(Pm[idx].copy(), Hm[idx].copy(), lam)
+                A(("%s(axis) == loop over profiles (%s)" % (name, vname), _rel(got, want) if got.shape == want.shape else float("inf"), 1e-9))
+            except Exception as ex:
+                A(("%s(axis) raised %s (%s)" % (name, type(ex).__name__, vname), float("inf"), 0))
     return out
 
 
